@@ -114,6 +114,19 @@ def grep_forbidden(modules):
     return hits
 
 
+def driver_imports(driver):
+    """Project modules imported by a driver file."""
+    src = open(os.path.join(LEAN, driver)).read()
+    return [m for m in re.findall(r"^import\s+(\S+)", src, re.M) if m.startswith("QclibModel")]
+
+
+def leanchecker(targets, timeout=3000):
+    """Independent re-check of the compiled property modules (thorough tier)."""
+    with Lock():
+        rc, out, err = sh(["lake", "env", "leanchecker"] + list(targets), cwd=LEAN, timeout=timeout)
+    return rc, (out + err)[-1500:]
+
+
 def lake_build(targets, timeout=3000):
     with Lock():
         rc, out, err = sh(["lake", "build"] + list(targets), cwd=LEAN, timeout=timeout)
@@ -326,6 +339,16 @@ def run_check(mod, pid, tier, seed, replay=None):
             else:
                 discharged += 1
 
+    checker_note = None
+    if build_ok and tier == "thorough" and not replay and not os.environ.get("VERIF_NO_LEANCHECKER"):
+        try:
+            crc, ctext = leanchecker(targets)
+            checker_note = f"leanchecker {' '.join(targets)}: exit {crc}"
+            if crc != 0:
+                broken.append({"obligation": "leanchecker " + " ".join(targets), "detail": ctext})
+        except Exception as e:  # tool problems are not violations
+            checker_note = f"leanchecker could not be run: {e}"
+
     # 3. correspondence + 4. oracle (property module fills ctx)
     try:
         if replay:
@@ -340,12 +363,21 @@ def run_check(mod, pid, tier, seed, replay=None):
 
     broken.extend(ctx.broken)
     tie_diffs = []
-    if ctx.tie_cases and build_ok:
+    tie_ran = 0
+    if ctx.tie_cases:
         default_driver = getattr(mod, "DRIVER", f"Drivers/{pid}.lean")
         by_driver = {}
         for c in ctx.tie_cases:
             by_driver.setdefault(c[3] or default_driver, []).append(c)
         for drv, cases in by_driver.items():
+            if not build_ok:
+                # the proofs are red, but the executable model may still compile: build just what
+                # the driver imports so that the correspondence can point at disagreeing inputs
+                rc2, _ = lake_build(driver_imports(drv))
+                if rc2 != 0:
+                    broken.append({"obligation": f"model build for {drv}", "detail": "model modules do not compile"})
+                    continue
+            tie_ran += len(cases)
             try:
                 blocks = run_driver([c[0] for c in cases], driver=drv)
             except Exception as e:
@@ -428,7 +460,8 @@ def run_check(mod, pid, tier, seed, replay=None):
         "branch_histogram": ctx.hist,
         "broken_obligations": broken,
         "known_findings_hit": sorted({k.get("id", "") for _, k in known_hits}),
-        "notes": ctx.notes,
+        "notes": ctx.notes + ([checker_note] if checker_note else []),
+        "correspondence_run": tie_ran,
     }
     if gen_info:
         cov["generated"] = gen_info
@@ -442,7 +475,7 @@ def run_check(mod, pid, tier, seed, replay=None):
         json.dump(ev, f, indent=1, default=str)
     for l in out_lines:
         print(l)
-    print(f"{pid} {tier}: theorems {discharged}/{len(theorems)} tie {len(ctx.tie_cases)-len(tie_diffs)}/{len(ctx.tie_cases)} "
+    print(f"{pid} {tier}: theorems {discharged}/{len(theorems)} tie {tie_ran-len(tie_diffs)}/{len(ctx.tie_cases)} "
           f"oracle evals {ctx.oracle_evals} failures {len(ctx.failures)} known {len(known_hits)} "
           f"wall {wall:.1f}s exit {exit_code}")
     return exit_code
